@@ -266,10 +266,21 @@ func runDocCase(t *testing.T, c docCase) sx {
 		var runIdx, e2eIdx atomic.Int32
 		restore := traceroute.VerifSetRunOnce(func(ctx context.Context, p traceroute.TracerouteParams, port int) (*result.TracerouteRun, error) {
 			var q docQuery
+			// a query the request did not ask for (more runs / probes started than scripted) gets a plain
+			// one-hop answer, so the case completes and the counts in the document show the excess
+			extra := docQuery{ok: true, hops: []docHop{{ttl: p.MaxTTL, ip: []byte{192, 0, 2, 99}, rttK: 1000, dest: true}}, srcIP: []byte{192, 0, 2, 1}, dstIP: []byte{192, 0, 2, 99}}
 			if p.MinTTL == p.MaxTTL {
-				q = c.e2es[int(e2eIdx.Add(1))-1]
+				if i := int(e2eIdx.Add(1)) - 1; i < len(c.e2es) {
+					q = c.e2es[i]
+				} else {
+					q = extra
+				}
 			} else {
-				q = c.runs[int(runIdx.Add(1))-1]
+				if i := int(runIdx.Add(1)) - 1; i < len(c.runs) {
+					q = c.runs[i]
+				} else {
+					q = extra
+				}
 			}
 			time.Sleep(q.delay)
 			if !q.ok {
